@@ -733,7 +733,7 @@ func registerReflect(p *Program) {
 			n := rv.N
 			m.require(m.nodeTagIn(n, TagObject), method, "non-map Value")
 			var present []int
-			for i := range n.Tm.Keys {
+			for i := range n.Keys() {
 				if m.Branch(m.simp(n.Present[i]), "reflect."+method+".present") {
 					present = append(present, i)
 				}
@@ -747,9 +747,9 @@ func registerReflect(p *Program) {
 			ov := m.Overlay(n)
 			for _, iv := range order {
 				i := int(iv.(int64))
-				keys = append(keys, mkRV(&RV{T: kt, V: n.Tm.Keys[i]}))
+				keys = append(keys, mkRV(&RV{T: kt, V: n.Keys()[i]}))
 				if ov != nil {
-					if v, ok := ov.Vals[n.Tm.Keys[i]]; ok {
+					if v, ok := ov.Vals[n.Keys()[i]]; ok {
 						vals = append(vals, mkRV(&RV{T: anyT, V: v}))
 						continue
 					}
@@ -760,7 +760,7 @@ func registerReflect(p *Program) {
 				for _, k := range ov.Keys {
 					already := false
 					for _, iv := range order {
-						if n.Tm.Keys[int(iv.(int64))] == k {
+						if n.Keys()[int(iv.(int64))] == k {
 							already = true
 						}
 					}
